@@ -40,7 +40,10 @@ def load_mutants(pid):
                 if mj.get("property") == pid and mj.get("declined"):
                     # a change the check deliberately does not decide (reason in meta.json and DESIGN.md): replayed and listed, never counted as fired
                     out.append({"id": "seeded-" + name, "kind": "declined", "desc": "declined: " + mj["declined"], "edits": [], "patch": patch})
-                elif mj.get("property") == pid:
+                elif mj.get("property") == pid and mj.get("owner") and mj.get("owner") != pid:
+                    # planted for this property, decided by the check of another one (meta.json: owner / owner_why): replayed and listed here, counted there
+                    out.append({"id": "seeded-" + name, "kind": "declined", "desc": "decided by %s: %s" % (mj["owner"], mj.get("owner_why", "")), "edits": [], "patch": patch})
+                elif mj.get("property") == pid or mj.get("owner") == pid:
                     out.append({"id": "seeded-" + name, "kind": "seed", "desc": "independent seeded change " + name, "edits": [], "patch": patch})
     # compound seeds (/verif/seeded/compound.json): a behaviour-preserving variant with one defect planted INSIDE the refactored code (the
     # helper, property, record class or module-level function the canonicaliser has to see through): the property's rules must still fire
